@@ -815,7 +815,9 @@ func (f *tsspFile) LoadIdTimes(p *IdTimePairs) error {
 	}
 	fr := f.reader
 
-	if err := fr.LoadIdTimes(f.IsOrder(), p); err != nil {
+	// f.mu is already read-locked: calling f.IsOrder() would read-lock it again and
+	// deadlock against a writer (Close) queued between the two acquisitions.
+	if err := fr.LoadIdTimes(f.name.order, p); err != nil {
 		return err
 	}
 
